@@ -27,7 +27,14 @@ RoundInts == UNION { Around(P(k)) : k \in {52, 53, 54, 55, 60, 63, 64} } \cup { 
              \cup { Add(P(63), <<1024 + d>>) : d \in {0, 1, 1023} } \cup { Add(P(64), MulSmall(<<1>>, 2048)), Add(P(64), <<2049>>), Add(P(64), <<2047>>), Add(P(64), <<6144>>) }
              \cup { PowSmall(10, k) : k \in {15, 16, 17, 18, 19, 20, 21, 22} }
 Rounds == { [e |-> "round", n |-> ToDec(m)] : m \in RoundInts }
-All == Arith \cup Shifts \cup Convs \cup Lits \cup Rounds
+\* binary64 boundary family: every biased exponent field 0..2046 (subnormals .. the largest binade) x significand fields at the edges
+\* of the binade (0 = an exact power of two, whose lower neighbour is only half as far away as the upper one; 1; 2; all ones;
+\* all ones - 1) and at its middle, x both signs.  The 52-bit field is given as two 26-bit halves (TLC integers are 32 bit).
+H26 == 67108863
+ManPatterns == {<<0, 0>>, <<0, 1>>, <<0, 2>>, <<H26, H26>>, <<H26, H26 - 1>>, <<33554432, 0>>, <<33554432, 1>>, <<33554431, H26>>}
+ExpFields == 0..2046
+DblBounds == { [e |-> "dblb", sign |-> sg, exp |-> ex, hi |-> m[1], lo |-> m[2]] : sg \in {0, 1}, ex \in ExpFields, m \in ManPatterns }
+All == Arith \cup Shifts \cup Convs \cup Lits \cup Rounds \cup DblBounds
 Init == phase = 0 /\ c = [e |-> "none"]
 Next == phase = 0 /\ phase' = 1 /\ c' \in All
 Emit == phase = 1 => PrintT(ToJson(c))
